@@ -327,6 +327,51 @@ def _strip_doc(body):
 
 # --------------------------------------------------------------------------------------------- negation / guards
 
+_INT_NAMES = set()
+
+
+def _collect_int_names(fn):
+    """Names that are certainly integers in fn: used as (part of) a subscript index or as a range() argument, or a loop variable
+    of enumerate()/range()."""
+    out = set()
+
+    def names_in_index(e):
+        if isinstance(e, ast.Name):
+            out.add(e.id)
+        elif isinstance(e, ast.BinOp) and isinstance(e.op, (ast.Add, ast.Sub, ast.Mult)):
+            names_in_index(e.left)
+            names_in_index(e.right)
+        elif isinstance(e, ast.Tuple):
+            for x in e.elts:
+                names_in_index(x)
+    for n in ast.walk(fn):
+        if isinstance(n, ast.Subscript) and not isinstance(n.slice, ast.Slice):
+            base_is_dict = False
+            if not base_is_dict:
+                names_in_index(n.slice)
+        elif isinstance(n, ast.Call) and isinstance(n.func, ast.Name) and n.func.id == 'range':
+            for a in n.args:
+                names_in_index(a)
+        elif isinstance(n, (ast.For, ast.comprehension)) and isinstance(n.iter, ast.Call) and isinstance(n.iter.func, ast.Name):
+            if n.iter.func.id == 'range' and isinstance(n.target, ast.Name):
+                out.add(n.target.id)
+            elif n.iter.func.id == 'enumerate' and isinstance(n.target, ast.Tuple) and n.target.elts and isinstance(n.target.elts[0], ast.Name):
+                out.add(n.target.elts[0].id)
+    return out
+
+
+def _is_int_expr(e):
+    if isinstance(e, ast.Constant):
+        return type(e.value) is int
+    if isinstance(e, ast.Name):
+        return e.id in _INT_NAMES
+    if isinstance(e, ast.Call) and isinstance(e.func, ast.Name) and e.func.id in ('len', 'int'):
+        return True
+    if isinstance(e, ast.BinOp) and isinstance(e.op, (ast.Add, ast.Sub, ast.Mult)):
+        return _is_int_expr(e.left) and _is_int_expr(e.right)
+    return False
+
+
 def _neg(e):
     if isinstance(e, ast.UnaryOp) and isinstance(e.op, ast.Not):
         return e.operand
@@ -338,8 +383,8 @@ def _neg(e):
         if t in flip:
             return ast.Compare(left=e.left, ops=[flip[t]()], comparators=e.comparators)
         oflip = {ast.Lt: ast.GtE, ast.GtE: ast.Lt, ast.Gt: ast.LtE, ast.LtE: ast.Gt}
-        if t in oflip and any(isinstance(x, ast.Constant) and type(x.value) is int for x in (e.left, e.comparators[0])):
-            return ast.Compare(left=e.left, ops=[oflip[t]()], comparators=e.comparators)  # integer comparison: no NaN
+        if t in oflip and all(_is_int_expr(x) for x in (e.left, e.comparators[0])):
+            return ast.Compare(left=e.left, ops=[oflip[t]()], comparators=e.comparators)  # both sides integers: no NaN
     if isinstance(e, ast.Constant) and isinstance(e.value, bool):
         return ast.Constant(value=not e.value)
     return ast.UnaryOp(op=ast.Not(), operand=e)
@@ -435,14 +480,24 @@ def _merge_arms(a, b, test):
 
 
 class _PushIfExp(ast.NodeTransformer):
-    """`(a, x) if c else (a, y)` -> `(a, x if c else y)` when the shared parts have no effects."""
+    """`(a, x) if c else (a, y)` -> `(a, x if c else y)`; `f(x) if c else f(y)` -> `f(x if c else y)`: the shared parts that are
+    evaluated *besides* the chain of enclosing calls must have no effects (the enclosing calls run once either way)."""
     def visit_IfExp(self, node):
         self.generic_visit(node)
-        if isinstance(node.body, (ast.Tuple, ast.List, ast.Call, ast.BinOp, ast.Subscript, ast.Attribute)) and type(node.body) is type(node.orelse) \
-                and _movable(node.body) and _movable(node.orelse):
+        if isinstance(node.body, (ast.Tuple, ast.List, ast.Call, ast.BinOp, ast.Subscript, ast.Attribute)) and type(node.body) is type(node.orelse):
             m = _merge_arms(ast.Expr(value=node.body), ast.Expr(value=node.orelse), node.test)
             if m is not None and not isinstance(m.value, ast.IfExp):
-                return self.visit(m.value) if False else m.value
+                inner = [n for n in ast.walk(m.value) if isinstance(n, ast.IfExp) and n.test is node.test]
+                if len(inner) == 1:
+                    d = inner[0]
+                    ok = _movable(node.test)
+                    for n in ast.walk(m.value):
+                        if isinstance(n, ast.Call) and not _noeffect(n) and not any(x is d for x in ast.walk(n)):
+                            ok = False
+                        if isinstance(n, (ast.NamedExpr, ast.Yield, ast.YieldFrom, ast.Await, ast.Lambda)):
+                            ok = False
+                    if ok:
+                        return m.value
         return node
 
 
@@ -513,6 +568,18 @@ def _guards(fn):
                 break
     # a trailing `continue` / bare `return` as last statement of a loop / function is a no-op
     _PushIfExp().visit(fn)
+    tails = _tail_blocks(fn)
+    for owner, field, body in list(_blocks(fn)):   # an arm that only leaves, at a place where leaving is what happens anyway
+        if isinstance(owner, ast.If) and len(body) == 1 and ((tails.get(id(body)) == 'loop' and isinstance(body[0], ast.Continue))
+                                                             or (tails.get(id(body)) == 'fn' and isinstance(body[0], ast.Return) and body[0].value is None)):
+            if field == 'orelse':
+                del body[:]
+            else:
+                body[0] = ast.Pass()
+    for n in ast.walk(fn):
+        if isinstance(n, ast.If) and n.orelse and len(n.body) == 1 and isinstance(n.body[0], ast.Pass):
+            n.test = _neg(n.test)
+            n.body, n.orelse = n.orelse, []
     tails = _tail_blocks(fn)
     for owner, field, body in list(_blocks(fn)):
         if tails.get(id(body)) == 'loop' and len(body) > 1 and isinstance(body[-1], ast.Continue):
@@ -941,10 +1008,15 @@ def _comprehensions(fn):
 
 # --------------------------------------------------------------------------------------------- inlining
 
+def _opaque_decorators(fdef):
+    """decorators other than the JIT markers (numba.njit, cuda.jit(...)), which do not change what the function computes"""
+    return [d for d in fdef.decorator_list if not (_txt(d).startswith('numba.') or _txt(d).startswith('cuda.jit') or _txt(d) in ('njit', 'staticmethod'))]
+
+
 def _single_return(fdef):
     """Parameter names and the returned expression if the (normalised) body of fdef is one `return <expr>`."""
     a = fdef.args
-    if a.vararg or a.kwarg or a.kwonlyargs or a.defaults or a.posonlyargs or fdef.decorator_list:
+    if a.vararg or a.kwarg or a.kwonlyargs or a.defaults or a.posonlyargs or _opaque_decorators(fdef):
         return None
     body = _strip_doc(fdef.body)
     if len(body) == 1 and isinstance(body[0], ast.Return) and body[0].value is not None:
@@ -954,7 +1026,7 @@ def _single_return(fdef):
 
 def _procedure(fdef):
     a = fdef.args
-    if a.vararg or a.kwarg or a.kwonlyargs or a.defaults or a.posonlyargs or fdef.decorator_list:
+    if a.vararg or a.kwarg or a.kwonlyargs or a.defaults or a.posonlyargs or _opaque_decorators(fdef):
         return None
     body = _strip_doc(fdef.body)
     if any(isinstance(n, (ast.Return, ast.Yield, ast.YieldFrom, ast.Nonlocal, ast.Global)) for s in body for n in ast.walk(s)):
@@ -1075,51 +1147,85 @@ def _inline(fn, module_tree, cls, depth=0, budget=None, only=None):
                         i += len(new)
                         continue
             i += 1
-    # `v = helper(args)`: helper body is straight-line code ending in its only `return`
+    # a call of a helper whose body is straight-line code ending in its only `return`, anywhere in a simple statement whose
+    # other parts have no effects: the helper's statements are placed before the statement, the call becomes the returned expression
+    def helper_key(call):
+        if call.keywords or any(isinstance(x, ast.Starred) for x in call.args):
+            return None, None
+        if isinstance(call.func, ast.Name) and ('fn', call.func.id) in tab:
+            return ('fn', call.func.id), None
+        if isinstance(call.func, ast.Attribute) and isinstance(call.func.value, ast.Name) and call.func.value.id == 'self' \
+                and ('method', call.func.attr) in tab and call.func.attr.startswith('_') and not call.func.attr.startswith('__'):
+            return ('method', call.func.attr), call.func.value
+        return None, None
+
+    serial = [0]
     for _o, _f, body in list(_blocks(fn)):
         i = 0
         while i < len(body):
             st = body[i]
-            call = st.value if isinstance(st, (ast.Assign, ast.Return)) and isinstance(st.value, ast.Call) else None
-            if call is not None and not call.keywords and (isinstance(st, ast.Return) or (len(st.targets) == 1 and isinstance(st.targets[0], ast.Name))):
-                key = recv = None
-                if isinstance(call.func, ast.Name) and ('fn', call.func.id) in tab:
-                    key = ('fn', call.func.id)
-                elif isinstance(call.func, ast.Attribute) and isinstance(call.func.value, ast.Name) and call.func.value.id == 'self' \
-                        and ('method', call.func.attr) in tab and call.func.attr.startswith('_') and not call.func.attr.startswith('__'):
-                    key, recv = ('method', call.func.attr), call.func.value
-                h = prep(key) if key is not None else None
-                if h is not None and _single_return(h) is None:
-                    a = h.args
-                    hb = _strip_doc(h.body)
-                    rets = [n for s2 in hb for n in ast.walk(s2) if isinstance(n, ast.Return)]
-                    args = ([recv] if recv is not None else []) + list(call.args)
-                    if not (a.vararg or a.kwarg or a.kwonlyargs or a.defaults or h.decorator_list) and len(rets) == 1 and rets[0] is hb[-1] \
-                            and rets[0].value is not None and len(a.args) == len(args) and all(_simple_arg(x) for x in args) \
-                            and not any(isinstance(n, (ast.Yield, ast.YieldFrom, ast.Global, ast.Nonlocal, ast.FunctionDef)) for s2 in hb for n in ast.walk(s2)):
-                        params = [x.arg for x in a.args]
-                        locs = set()
-                        for s2 in hb:
-                            locs |= _writes(s2)[0]
-                        locs -= set(params)
-                        free = {n.id for s2 in hb for n in ast.walk(s2) if isinstance(n, ast.Name)} - set(params) - locs
-                        if getattr(tab[key], '_closure', False) or not (free & set(caller_bound)):
-                            m = dict(zip(params, args))
-                            m.update({n: ast.Name(id=f'{key[1]}__{n}', ctx=ast.Load()) for n in locs})
-                            new = []
-                            for s2 in hb[:-1]:
-                                s3 = _subst(s2, m)
-                                for n in ast.walk(s3):
-                                    if isinstance(n, ast.Name) and isinstance(n.ctx, ast.Store) and n.id in locs:
-                                        n.id = f'{key[1]}__{n.id}'
-                                new.append(s3)
-                            rv = _subst(hb[-1].value, m)
-                            new.append(ast.Return(value=rv) if isinstance(st, ast.Return) else ast.Assign(targets=st.targets, value=rv, lineno=st.lineno))
-                            body[i:i + 1] = new
-                            used_closures.add(key)
-                            i += len(new)
-                            continue
-            i += 1
+            if not isinstance(st, (ast.Assign, ast.Return, ast.Expr, ast.AugAssign)) or getattr(st, 'value', None) is None:
+                i += 1
+                continue
+            cands = []
+            for n in ast.walk(st.value):
+                if isinstance(n, ast.Call):
+                    k, r = helper_key(n)
+                    if k is not None:
+                        cands.append((n, k, r))
+            if len(cands) != 1:
+                i += 1
+                continue
+            call, key, recv = cands[0]
+            others_ok = all(_noeffect(n) or n is call for n in ast.walk(st.value) if isinstance(n, ast.Call))
+            h = prep(key)
+            done = False
+            if others_ok and h is not None and _single_return(h) is None:
+                a = h.args
+                hb = _strip_doc(h.body)
+                rets = [n for s2 in hb for n in ast.walk(s2) if isinstance(n, ast.Return)]
+                args = ([recv] if recv is not None else []) + list(call.args)
+                if not (a.vararg or a.kwarg or a.kwonlyargs or a.defaults or _opaque_decorators(h)) and len(rets) == 1 and rets[0] is hb[-1] \
+                        and rets[0].value is not None and len(a.args) == len(args) and all(_simple_arg(x) or _pure(x) for x in args) \
+                        and not any(isinstance(n, (ast.Yield, ast.YieldFrom, ast.Global, ast.Nonlocal, ast.FunctionDef)) for s2 in hb for n in ast.walk(s2)):
+                    params = [x.arg for x in a.args]
+                    locs = set()
+                    for s2 in hb:
+                        locs |= _writes(s2)[0]
+                    rebound = locs & set(params)          # parameters the helper re-binds are its locals, initialised from the argument
+                    locs -= set(params)
+                    free = {n.id for s2 in hb for n in ast.walk(s2) if isinstance(n, ast.Name)} - set(params) - locs
+                    if getattr(tab[key], '_closure', False) or not (free & set(caller_bound)):
+                        serial[0] += 1
+                        pre = f'{key[1]}__{serial[0]}__'
+                        m = {p_: a_ for p_, a_ in zip(params, args) if p_ not in rebound}
+                        m.update({n: ast.Name(id=pre + n, ctx=ast.Load()) for n in locs | rebound})
+                        new = [ast.Assign(targets=[ast.Name(id=pre + p_, ctx=ast.Store())], value=a_, lineno=getattr(st, 'lineno', 0))
+                               for p_, a_ in zip(params, args) if p_ in rebound]
+                        for s2 in hb[:-1]:
+                            s3 = _subst(s2, m)
+                            for n in ast.walk(s3):
+                                if isinstance(n, ast.Name) and isinstance(n.ctx, ast.Store) and n.id in (locs | rebound):
+                                    n.id = pre + n.id
+                            new.append(s3)
+                        rv = _subst(hb[-1].value, m)
+                        if st.value is call:
+                            st.value = rv
+                        else:
+                            for par in ast.walk(st.value):
+                                for f2, v2 in ast.iter_fields(par):
+                                    if v2 is call:
+                                        setattr(par, f2, rv)
+                                    elif isinstance(v2, list):
+                                        for k2, x2 in enumerate(v2):
+                                            if x2 is call:
+                                                v2[k2] = rv
+                        body[i:i] = new
+                        used_closures.add(key)
+                        i += len(new) + 1
+                        done = True
+            if not done:
+                i += 1
     # drop closures that are no longer referenced
     for _o, _f, body in list(_blocks(fn)):
         for st in list(body):
@@ -1175,8 +1281,12 @@ def _split_ranges_scope(fn):
             other.update(n.names)
         elif isinstance(n, (ast.FunctionDef, ast.ClassDef)):
             other.add(n.name)
-    for a in fn.args.args + fn.args.kwonlyargs + fn.args.posonlyargs + [x for x in (fn.args.vararg, fn.args.kwarg) if x]:
-        other.add(a.arg)
+    params = {a.arg for a in fn.args.args + fn.args.kwonlyargs + fn.args.posonlyargs + [x for x in (fn.args.vararg, fn.args.kwarg) if x]}
+    for pn in params:      # a parameter has one more binding: the function entry (it keeps the parameter's name)
+        if pn in plain and pn not in other:
+            plain[pn] = ['ENTRY'] + plain[pn]
+        else:
+            other.add(pn)
 
     def binds(st, t):
         for n in ast.walk(st):
@@ -1202,7 +1312,7 @@ def _split_ranges_scope(fn):
                 if binds(prev, t):
                     return None
             if owner is fn:
-                return None
+                return 'ENTRY' if t in params else None
             if isinstance(owner, ast.For) and field == 'body' and (owner, t) in fordef:
                 return owner
             if isinstance(owner, (ast.For, ast.While)) and binds(owner, t):
@@ -1231,6 +1341,9 @@ def _split_ranges_scope(fn):
             continue
         newname = {}
         for k, d in enumerate(defs):
+            if d == 'ENTRY':
+                newname[d] = t
+                continue
             newname[d] = f'{t}__{k}'
             if isinstance(d, ast.Assign):
                 d.targets[0].id = newname[d]
@@ -1666,17 +1779,31 @@ def _normalise_body(fn, module_tree, cls, depth=0, rename=True):
                 for k, s in enumerate(b):
                     if isinstance(s, ast.AnnAssign) and s.value is not None and s.simple:
                         b[k] = ast.Assign(targets=[s.target], value=s.value, lineno=s.lineno)
+    from . import canon2
+    global _INT_NAMES
+    canon2.scope_comprehensions(fn)
     for _ in range(3):
         before = ast.dump(fn)
+        _INT_NAMES = _collect_int_names(fn)
         _inline(fn, module_tree, cls, depth)
+        canon2.module_constants(fn, module_tree)
+        canon2.truth_and_idioms(fn)
+        canon2.param_single_branch(fn)
         _split_tuples(fn)
         _AugNorm(_scalar_names(fn)).visit(fn)
         _split_ranges(fn)
         _copyprop(fn)
         _unroll(fn)
         _copyprop(fn)
+        canon2.exits_to_else(fn)
+        canon2.default_to_else(fn)
+        canon2.attr_forward(fn)
+        canon2.adjacent_single_use(fn)
+        canon2.sink_into_arms(fn)
+        canon2.for_over_listcomp(fn)
         _guards(fn)
         _comprehensions(fn)
+        canon2.orient(fn)
         if rename:
             _alpha(fn)  # the text-keyed sorts below must not depend on the names the author chose
         fn2 = _Commute().visit(fn)
